@@ -612,13 +612,58 @@ func boundsAudit(c *Ctx, fns []*ssa.Function) []BoundsResult {
 		out = append(out, BoundsResult{Verdict: "violation", Why: err.Error(), Expr: "compiler oracle", Key: "oracle"})
 		resid = nil
 	}
+	inScope := map[*ssa.Function]bool{}
+	for _, fn := range fns {
+		inScope[fn] = true
+	}
 	for _, fn := range fns {
 		if fn == nil || fn.Blocks == nil {
+			continue
+		}
+		if contextualHelper(c.P, fn, inScope) {
+			// audited at every call site, with the caller's arguments
 			continue
 		}
 		out = append(out, auditFunc(c, fn, resid)...)
 	}
 	return out
+}
+
+// contextualHelper: a new helper (not part of the confirmed vocabulary) whose
+// every use is a static call from an audited function.  Its index and slice
+// sites are proved in the context of each caller instead of for arbitrary
+// arguments.
+func contextualHelper(p *Prog, fn *ssa.Function, inScope map[*ssa.Function]bool) bool {
+	if !p.IsNewHelper(fn) || fn.Parent() != nil {
+		return false
+	}
+	if fn.Object() != nil && fn.Object().Exported() {
+		return false
+	}
+	calls := 0
+	ok := true
+	for _, user := range p.AllLibFuncs() {
+		eachInstr(user, func(_ *ssa.BasicBlock, in ssa.Instruction) {
+			var callee ssa.Value
+			if ci, isCall := in.(ssa.CallInstruction); isCall {
+				callee = ci.Common().Value
+				if ci.Common().StaticCallee() == fn {
+					if _, isGo := in.(*ssa.Go); isGo || !inScope[user] && !p.IsNewHelper(user) {
+						ok = false
+					}
+					calls++
+				}
+			}
+			for _, op := range in.Operands(nil) {
+				if op != nil && *op != nil && *op != callee {
+					if f, isF := (*op).(*ssa.Function); isF && f == fn {
+						ok = false // used as a value
+					}
+				}
+			}
+		})
+	}
+	return ok && calls > 0
 }
 
 func posKey(p *Prog, pos token.Pos) string {
@@ -634,33 +679,37 @@ func auditFunc(c *Ctx, fn *ssa.Function, resid map[string]bool) []BoundsResult {
 		lo, hi   ssa.Value // index sites: lo=index, hi=nil
 		isIndex  bool
 		max      ssa.Value
+		act      *Summary // inlined activation the site belongs to (nil: fn itself)
 	}
 	var sites []site
-	eachInstr(fn, func(_ *ssa.BasicBlock, in ssa.Instruction) {
+	var curAct *Summary
+	collect := func(_ *ssa.BasicBlock, in ssa.Instruction) {
 		switch in := in.(type) {
 		case *ssa.IndexAddr:
 			if arrayConstIndexOK(in.X.Type(), in.Index) {
 				return
 			}
-			sites = append(sites, site{in: in, x: in.X, lo: in.Index, isIndex: true})
+			sites = append(sites, site{in: in, x: in.X, lo: in.Index, isIndex: true, act: curAct})
 		case *ssa.Index:
 			if arrayConstIndexOK(in.X.Type(), in.Index) {
 				return
 			}
-			sites = append(sites, site{in: in, x: in.X, lo: in.Index, isIndex: true})
+			sites = append(sites, site{in: in, x: in.X, lo: in.Index, isIndex: true, act: curAct})
 		case *ssa.Lookup:
 			if _, isMap := in.X.Type().Underlying().(*types.Map); isMap {
 				return
 			}
-			sites = append(sites, site{in: in, x: in.X, lo: in.Index, isIndex: true})
+			sites = append(sites, site{in: in, x: in.X, lo: in.Index, isIndex: true, act: curAct})
 		case *ssa.Slice:
 			if _, isPtrArr := in.X.Type().Underlying().(*types.Pointer); isPtrArr && in.Low == nil && in.High == nil {
 				return
 			}
-			sites = append(sites, site{in: in, x: in.X, lo: in.Low, hi: in.High, max: in.Max})
+			sites = append(sites, site{in: in, x: in.X, lo: in.Low, hi: in.High, max: in.Max, act: curAct})
 		}
-	})
-	if len(sites) == 0 {
+	}
+	eachInstr(fn, collect)
+	callsHelper := len(helperGroup(c.P, fn)) > 1+len(fn.AnonFuncs)
+	if len(sites) == 0 && !callsHelper {
 		return nil
 	}
 	var out []BoundsResult
@@ -683,25 +732,49 @@ func auditFunc(c *Ctx, fn *ssa.Function, resid map[string]bool) []BoundsResult {
 		_ = sums
 	}
 	c.Fn(FuncName(fn))
+	if callsHelper {
+		// the sites of new helpers, once per inlined activation, in terms of this caller
+		ensure()
+		for _, sub := range g.Subs {
+			if c.P.IsNewHelper(sub.Fn) {
+				curAct = sub
+				for _, b := range sub.Fn.Blocks {
+					for _, in := range b.Instrs {
+						collect(b, in)
+					}
+				}
+			}
+		}
+		curAct = nil
+	}
 	for _, st := range sites {
 		r := BoundsResult{Fn: fn, Pos: st.in.Pos(), Expr: clip(st.in.String(), 70)}
+		act := s
+		owner := shortFn(fn)
+		if st.act != nil {
+			act = st.act
+			owner = shortFn(st.act.Fn) + " (in " + shortFn(fn) + ")"
+		}
 		pk := posKey(c.P, st.in.Pos())
 		if resid != nil && !resid[pk] && st.in.Pos().IsValid() {
 			r.Verdict = "compiler"
-			r.Key = shortFn(fn) + ": " + r.Expr
+			r.Key = owner + ": " + r.Expr
 			out = append(out, r)
 			continue
 		}
 		ensure()
+		if st.act == nil {
+			act = s
+		}
 		u := g.U
-		rc, ok := s.RC[st.in.Block()]
+		rc, ok := act.RC[st.in.Block()]
 		if !ok {
 			r.Verdict = "lin"
 			r.Why = "unreachable block"
 			out = append(out, r)
 			continue
 		}
-		x := s.Env[st.x]
+		x := act.Env[st.x]
 		if x == nil {
 			if cv, ok := st.x.(*ssa.Const); ok && cv.Value != nil {
 				x = u.ConstVal(cv.Value, cv.Type())
@@ -709,7 +782,7 @@ func auditFunc(c *Ctx, fn *ssa.Function, resid map[string]bool) []BoundsResult {
 		}
 		var lo, hi *E
 		if st.lo != nil {
-			lo = s.Env[st.lo]
+			lo = act.Env[st.lo]
 			if lo == nil {
 				if cv, ok := st.lo.(*ssa.Const); ok && cv.Value != nil {
 					lo = u.ConstVal(cv.Value, cv.Type())
@@ -717,28 +790,33 @@ func auditFunc(c *Ctx, fn *ssa.Function, resid map[string]bool) []BoundsResult {
 			}
 		}
 		if st.hi != nil {
-			hi = s.Env[st.hi]
+			hi = act.Env[st.hi]
 			if hi == nil {
 				if cv, ok := st.hi.(*ssa.Const); ok && cv.Value != nil {
 					hi = u.ConstVal(cv.Value, cv.Type())
 				}
 			}
 		}
-		fullKey := shortFn(fn) + ": " + siteKey(u, x, lo, hi, st.isIndex)
-		r.Key = shortFn(fn) + ": " + clip(siteKey(u, x, lo, hi, st.isIndex), 160)
+		fullKey := owner + ": " + siteKey(u, x, lo, hi, st.isIndex)
+		r.Key = owner + ": " + clip(siteKey(u, x, lo, hi, st.isIndex), 160)
 		if x == nil {
 			r.Verdict = "violation"
 			r.Why = "UNDECIDED: operand not evaluated"
 			out = append(out, r)
 			continue
 		}
-		ok2, why := proveSite(c, g, s, fn, rc, x, lo, hi, st.isIndex)
+		ok2, why := proveSite(c, g, act, act.Fn, rc, x, lo, hi, st.isIndex)
 		switch {
 		case ok2:
 			r.Verdict = "lin"
 			r.Why = why
 		default:
-			if reason, isRes := residualTable[fullKey]; isRes {
+			reason, isRes := residualTable[fullKey]
+			if !isRes && st.act != nil {
+				// the same site reached through a helper: the entry is stated in the caller's terms
+				reason, isRes = residualTable[shortFn(fn)+": "+siteKey(u, x, lo, hi, st.isIndex)]
+			}
+			if isRes {
 				r.Verdict = "residual"
 				r.Why = reason
 			} else {
@@ -988,11 +1066,36 @@ func proveCase0(c *Ctx, g *Gate, s *Summary, fn *ssa.Function, u *U, cond Ref, x
 	}
 }
 
-// loopFacts adds the two loop lemmas for every header φ of fn.
+// loopFacts adds the two loop lemmas for every header φ of fn and of the
+// activations inlined into the evaluation.
 func loopFacts(L *Lin, g *Gate, s *Summary, fn *ssa.Function) {
+	acts := []*Summary{s}
+	if g.Top != nil && g.Top != s && g.Top.Loops > 0 {
+		acts = append(acts, g.Top)
+	}
+	for _, sub := range g.Subs {
+		if sub != s && sub != g.Top && sub.Fn != nil && len(sub.Fn.Blocks) > 0 && sub.Loops > 0 {
+			acts = append(acts, sub)
+		}
+	}
+	passes := 3
+	if len(acts) > 1 {
+		passes = 2 + len(acts)
+		if passes > 6 {
+			passes = 6
+		}
+	}
+	for pass := 0; pass < passes; pass++ {
+		for _, a := range acts {
+			loopFacts1(L, g, a, a.Fn)
+		}
+	}
+}
+
+func loopFacts1(L *Lin, g *Gate, s *Summary, fn *ssa.Function) {
 	u := g.U
 	loops := loopsOf(fn)
-	for pass := 0; pass < 3; pass++ {
+	{
 		for _, l := range loops {
 			for _, in := range l.Header.Instrs {
 				ph, ok := in.(*ssa.Phi)
